@@ -357,7 +357,13 @@ func (n *SimNet) route(ep *endpoint, seq uint64, addr string, buf []byte) {
 	}
 }
 
-func (ep *endpoint) PacketCh() <-chan *Packet { return ep.packetCh }
+func (ep *endpoint) PacketCh() <-chan *Packet {
+	// called by the node's packet listener goroutine on every loop iteration
+	if cs := curSim.Load(); cs != nil {
+		cs.bindGoroutine(ep.name)
+	}
+	return ep.packetCh
+}
 func (ep *endpoint) StreamCh() <-chan net.Conn { return ep.streamCh }
 
 func (ep *endpoint) DialTimeout(addr string, timeout time.Duration) (net.Conn, error) {
